@@ -218,6 +218,16 @@ def fmt_items():
                         # a replaced field is not formatted: its parameter needs no Debug bound - still supported
                         pass
                     yield Item(["Debug"], struct_src(g, named, types, raw, attrs), ("debug", "named" if named else "tuple", g.key, "raw" if raw else "plain", ak))
+        # Debug with formats that name (generic) fields: on the struct, on a field (itself / a neighbour), on variants
+        for named in (False, True):
+            types = pay + ["u8"]
+            fn = PLAIN_FIELDS[:len(types)] if named else ["_%d" % i for i in range(len(types))]
+            lit = "/".join("{%s:?}" % n for n in fn)
+            yield Item(["Debug"], struct_src(g, named, types, False, item_attrs='#[debug("%s")]\n' % lit), ("debug", "named" if named else "tuple", g.key, "plain", "struct-fmt-names-fields"))
+            fa = ['#[debug("<{%s:?}>")]' % fn[0]] + [""] * (len(types) - 2) + ['#[debug("{%s:?}+{%s:?}")]' % (fn[0], fn[-1])]
+            yield Item(["Debug"], struct_src(g, named, types, False, fa), ("debug", "named" if named else "tuple", g.key, "plain", "field-fmt-names-fields"))
+        vsd = ['#[debug("a:{_0:?}")] A(%s)' % pay[0], '#[debug("b:{x:?}/{}", 7)] B { x: %s }' % pay[-1], 'C(#[debug("{_0:?}!")] %s, u8)' % pay[0], "#[debug(\"unit\")] U", "Plain"]
+        yield Item(["Debug"], enum_src(g, vsd), ("debug-enum", "mixed", g.key, "plain", "variant-and-field-fmt"))
         # enums
         p0 = pay[0]
         variants = ['#[display("a:{_0}")] A(%s)' % p0, '#[display("b:{x}/{}", 7)] B { x: %s }' % pay[-1], "#[display(\"unit\")] U", "Plain"]
